@@ -304,6 +304,53 @@ Theorem C02_derive_all_false_1d_refuted :
   exists M, length (fst (DeriveGrid1D_all_false_current M)) <> length (unmasked1 (fst (fst (snd (DeriveGrid1D_all_false_current M))))).
 Proof. exact derive_all_false_1d_refuted. Qed.
 
+
+(* ---- 14. EVERY coordinate of the (half-open) extent has its pixel: the index it converts to is a pixel of the array, the point lies in
+         that pixel's half-open square, and the flattened index is i * W + j -- no hypothesis about a pixel, only about the extent.  The
+         pixel is unique (half-open squares of distinct pixels are disjoint).  y decreases with the row, x increases with the column. *)
+Theorem C02_every_point_of_extent_has_its_pixel : forall H W sy sx oy ox y x, 0 < sy -> 0 < sx ->
+  let '(xmin, xmax, ymin, ymax) := @Geometry2D_extent ROps (H, W) (sy, sx) (oy, ox) in
+  ymin < y <= ymax -> xmin <= x < xmax ->
+  let p := @pixel_coordinates_2d_from ROps (y, x) (H, W) (sy, sx) (oy, ox) in
+  in_array (H, W) p /\ in_pixel (H, W) (sy, sx) (oy, ox) p (y, x) /\
+  @grid_pixel_indexes_2d_slim_from ROps [(y, x)] (H, W) (sy, sx) (oy, ox) = [IZR (fst p * W + snd p)].
+Proof. exact every_point_of_extent. Qed.
+Theorem C02_every_point_of_extent_has_its_pixel_1d : forall n s o x, 0 < s ->
+  let '(xmin, xmax) := @Geometry1D_extent ROps n s o in
+  xmin <= x < xmax ->
+  let j := @pixel_coordinates_1d_from ROps x n s o in
+  (0 <= j < n)%Z /\ @cx_spec ROps n s o (IZR j) - s / 2 <= x < @cx_spec ROps n s o (IZR j) + s / 2.
+Proof. exact every_point_of_extent_1d. Qed.
+Theorem C02_pixel_of_point_unique : forall H W sy sx oy ox p q c, 0 < sy -> 0 < sx ->
+  in_pixel (H, W) (sy, sx) (oy, ox) p c -> in_pixel (H, W) (sy, sx) (oy, ox) q c -> p = q.
+Proof. exact in_pixel_unique. Qed.
+Theorem C02_orientation : forall H W sy sx oy ox i i' j j', 0 < sy -> 0 < sx -> (i < i')%Z -> (j < j')%Z ->
+  fst (@centre_spec ROps (H, W) (sy, sx) (oy, ox) (i', j)) < fst (@centre_spec ROps (H, W) (sy, sx) (oy, ox) (i, j)) /\
+  snd (@centre_spec ROps (H, W) (sy, sx) (oy, ox) (i, j)) < snd (@centre_spec ROps (H, W) (sy, sx) (oy, ox) (i, j')).
+Proof. exact orientation. Qed.
+(* OUTSIDE the extent (what int() = truncation toward zero does; the property claims nothing there): a point less than one pixel below
+   the low edge still converts to index 0 -- a valid index although the point is outside --; one pixel or more below: a negative index;
+   at or above the high edge: an index >= n *)
+Theorem C02_index_outside_extent_1d : forall n s o x, 0 < s ->
+  (@lo_spec ROps n s o - s < x < @lo_spec ROps n s o -> @pixel_coordinates_1d_from ROps x n s o = 0%Z) /\
+  (x <= @lo_spec ROps n s o - s -> (@pixel_coordinates_1d_from ROps x n s o <= -1)%Z) /\
+  (@hi_spec ROps n s o <= x -> (n <= @pixel_coordinates_1d_from ROps x n s o)%Z).
+Proof. exact index_outside_extent_1d. Qed.
+
+
+(* ---- 15. the offset (dy, dx) that all five shape predicates (circ / ann / anti / ell / ellann _inside) are evaluated at is the pixel's
+         centre in the mask's own coordinates -- for ANY mask origin o -- minus (o + centre): every constructor places `centre` relative to
+         the mask origin.  Every pixel centre of the array lies at least half a pixel inside the extent. *)
+Theorem C02_offset_is_relative_to_origin_plus_centre : forall H W sy sx oy ox cy cx i j,
+  @offset ROps (H, W) (sy, sx) (cy, cx) (i, j) =
+  (fst (@centre_spec ROps (H, W) (sy, sx) (oy, ox) (i, j)) - (oy + cy), snd (@centre_spec ROps (H, W) (sy, sx) (oy, ox) (i, j)) - (ox + cx)).
+Proof. exact offset_relative_to_origin_plus_centre. Qed.
+Theorem C02_centres_half_pixel_inside_extent : forall H W sy sx oy ox i j, 0 < sy -> 0 < sx -> (0 <= i < H)%Z -> (0 <= j < W)%Z ->
+  let '(xmin, xmax, ymin, ymax) := @Geometry2D_extent ROps (H, W) (sy, sx) (oy, ox) in
+  let c := @centre_spec ROps (H, W) (sy, sx) (oy, ox) (i, j) in
+  xmin + sx / 2 <= snd c <= xmax - sx / 2 /\ ymin + sy / 2 <= fst c <= ymax - sy / 2.
+Proof. exact centres_half_pixel_inside_extent. Qed.
+
 (* ------------------------------------------------------------------ non-vacuity: the hypothesis sets are met by non-trivial
    inputs (non-square shape, anisotropic scales, unequal non-zero origin), and the models run (QOps) *)
 Example C02_ex_interior_point_hypotheses :
@@ -368,6 +415,13 @@ Example C02_ex_run_1d :
   /\ fst (@Grid1D_from_mask QOps ([false; true; false; false], (1 # 2)%Q, 1%Q)) = [1 # 4; 5 # 4; 7 # 4]%Q.
 Proof. split; vm_compute; reflexivity. Qed.
 
+Example C02_ex_extent_point_hypotheses :   (* a point of the half-open extent of the 3 x 4 geometry of the other examples *)
+  let '(xmin, xmax, ymin, ymax) := @Geometry2D_extent ROps (3, 4)%Z (2, 1 / 2) (1, -1) in ymin < - 1 / 5 <= ymax /\ xmin <= - 13 / 10 < xmax.
+Proof. rewrite C02_extent_formula. cbn [IZR IPR IPR_2]. lra. Qed.
+Example C02_ex_outside_hypotheses : @lo_spec ROps 4 (1 / 2) 1 - 1 / 2 < - 1 / 10 < @lo_spec ROps 4 (1 / 2) 1
+  /\ @pixel_coordinates_1d_from QOps (- 1 # 10)%Q 4%Z (1 # 2)%Q 1%Q = 0%Z.
+Proof. split; [unfold lo_spec, two; cbn [T add sub mul div ofZ ROps]; lra | vm_compute; reflexivity]. Qed.
+
 Print Assumptions C02_centre_formula_grid.
 Print Assumptions C02_centre_formula_scalar.
 Print Assumptions C02_centre_formula_1d.
@@ -431,3 +485,10 @@ Print Assumptions C02_uniform_1d_object.
 Print Assumptions C02_from_mask_1d_object.
 Print Assumptions C02_Mask1D_geometry_extent.
 Print Assumptions C02_derive_all_false_1d_refuted.
+Print Assumptions C02_every_point_of_extent_has_its_pixel.
+Print Assumptions C02_every_point_of_extent_has_its_pixel_1d.
+Print Assumptions C02_pixel_of_point_unique.
+Print Assumptions C02_orientation.
+Print Assumptions C02_index_outside_extent_1d.
+Print Assumptions C02_offset_is_relative_to_origin_plus_centre.
+Print Assumptions C02_centres_half_pixel_inside_extent.
